@@ -61,6 +61,7 @@ class Instance:
         self.required = {}      # host -> latest cookie value certainly delivered
         self.allowed = {}       # host -> set of values possibly delivered
         self.scanned = 0        # conns already folded into the cookie model
+        self.shared = False     # driven by two tasks at the same time
 
 
 class Op:
@@ -340,7 +341,7 @@ class C14(World):
                              + (f" (it was set for instance {owner})" if owner is not None else ""),
                              leaked_from_other_instance=owner is not None)
         persist = inst.slot.persist_cookies
-        need = inst.required.get(host)
+        need = inst.required.get(host) if not inst.shared else None
         if need is not None and persist in (None, True):
             if ("sid", need) not in sent:
                 self.violate("C14", "I6-cookies", "not-replayed",
@@ -438,8 +439,14 @@ class C14(World):
             n_tasks = 2 + ch.pick("conc.tasks", 2)
             plans = []
             for t in range(n_tasks):
-                slot = self.slots[ch.pick("op.slot", n_slots)]
-                inst = self.new_instance(slot)
+                if plans and ch.flag("conc.share_instance", 0.25):
+                    # two tasks drive ONE client instance at the same time (what the profile scan does)
+                    inst = plans[ch.pick("conc.share_of", len(plans))][0]
+                    inst.shared = True
+                    sim.count("probe.tasks_sharing_one_instance")
+                else:
+                    slot = self.slots[ch.pick("op.slot", n_slots)]
+                    inst = self.new_instance(slot)
                 ops = [self.draw_op() for _ in range(1 + ch.pick("conc.ops", 3))]
                 plans.append((inst, ops))
             done = []
@@ -454,8 +461,22 @@ class C14(World):
             sim.run_tasks()
             if sim.switches > n_tasks:
                 self.nontrivial = True
+            # an instance used by two tasks at once has no program order: everything any response set for it is
+            # allowed on any of its requests, nothing in particular is required
+            for inst in self.instances:
+                if inst.shared:
+                    for cc in self.net.conns:
+                        opx = next((o for o in done if o.id == cc.op), None)
+                        if opx is not None and opx.inst is inst and cc.response is not None:
+                            for k, v in cc.response.headers:
+                                if k.lower() == "set-cookie":
+                                    inst.allowed.setdefault(cc.host.lower(), set()).add(v.split(";")[0].split("=", 1)[1])
             # judge per instance in its own program order (cookie model is per instance)
+            seen_inst = []
             for inst, _ in plans:
+                if inst in seen_inst:
+                    continue
+                seen_inst.append(inst)
                 for op in done:
                     if op.inst is inst:
                         self.judge_op(op)
